@@ -3,6 +3,7 @@
 #include "dma_spec.h"
 #include "dma_contracts.h"
 #include "common.h"
+#include "spec_touch.h"
 int verif_outcome;
 ext_access ghost_ext_log[EXT_LOG];
 u32 ghost_ext_n;
